@@ -59,7 +59,8 @@ def concClientObs (svc : Service) (cl : ConcClient) : Sx :=
   .list [.atom "c", .atom "t", .list (.atom "out" :: r.out.map ofReply), bytesAtom (upEcho r), .atom "f", ref]
 
 def concLine (c : ConcCase) : Sx :=
-  .list (.atom "obs" :: c.clients.map (concClientObs c.svc))
+  -- after the stop flag `listen` returns Ok (C15_stop); a panic in a worker would resurface in its join
+  .list (.atom "obs" :: c.clients.map (concClientObs c.svc) ++ [.list [.atom "server", .atom "ok"]])
 
 /-! ### timing mode: a timeline simulation that feeds Model.Listen -/
 
@@ -235,7 +236,11 @@ def listenPred (prop : String) (caseLine obsLine : String) : String :=
           | .list (.atom "obs" :: items) =>
             if items.any (fun x => match x with | .list [.atom "server-did-not-stop"] => true | _ => false) then
               some "server-did-not-stop-after-all-peers-had-gone"
-            else concPred c items
+            else if items.any (fun x => match x with | .list [.atom "server", .atom "panic"] => true | _ => false) then
+              some "a-server-thread-panicked"
+            else if items.any (fun x => match x with | .list [.atom "server", .atom "err"] => true | _ => false) then
+              some "listen-returned-an-error-after-the-stop-flag"
+            else concPred c (items.filter fun x => match x with | .list (.atom "c" :: _) => true | _ => false)
           | _ => some "unparsable-observation"
         | none =>
           match parseTimingCase cs, parseTimingObs os with
